@@ -708,12 +708,17 @@ impl<'a> Gen<'a> {
             let params: Vec<String> = (0..arity).map(|_| self.rng.pick(&["J", "K", "Q", "C", "Y"]).to_string()).collect();
             let d = self.k.expr_depth.min(2);
             let saved = (self.k.arrays, self.k.rnd, self.k.failures);
+            let saved_funcs = self.funcs.clone();
             if self.k.pure_fn_bodies {
+                // no arrays (reading one creates it), no RND (advances the generator), no calls to
+                // other functions (an undefined one is an array read): calling the function writes nothing
                 self.k.arrays = false;
                 self.k.rnd = false;
+                self.funcs.clear();
             }
             let body = self.num_expr(d);
             (self.k.arrays, self.k.rnd, self.k.failures) = saved;
+            self.funcs = saved_funcs;
             let stmt = Stmt::Def {
                 name: name.clone(),
                 params,
